@@ -353,6 +353,23 @@ def rule_c(chk, prog, s, fs):
                               "(e.g. a day without potential transpiration): the seasonal total no longer equals the sum of the daily column",
                               loc=tr.loc(a))
     chk.floor("C06.c-clears", nclear, 1, "constant stores to irr_net_cum in transpiration")
+    # both seasonal counters start every season at 0: cleared on every path of the season reset
+    rs = prog.func(RESET_FN)
+    rflow = flow_of(rs)
+    for cnt in ("irr_cum", "irr_net_cum"):
+        nodes = set()
+        for sto in stores(prog, rs, None):
+            v = getattr(sto.node, "value", None)
+            if sto.kind == "attr" and sto.field == cnt and isinstance(v, ast.Constant) and v.value == 0:
+                k = rflow.stmt_node.get(id(sto.node)) or rflow.node_of(sto.node)
+                if k is not None:
+                    nodes.add(k)
+        construct = f"<state>.{cnt} = 0 on every path of the season reset"
+        if nodes and not rflow.cfg.paths_exist_avoiding(rflow.cfg.entry, rflow.cfg.exit, nodes):
+            chk.ok("C06.c", f"{rs.module}:{rs.qualname}", construct, "cleared unconditionally")
+        else:
+            chk.violation("C06.c", f"{rs.module}:{rs.qualname}", construct, f"the season reset does not clear {cnt} (on every path): when the run jumps from a harvest to "
+                          "the next planting date the new season's total continues the previous season's", loc=rs.loc())
 
 
 def summary_written_once(flow, nid) -> bool:
